@@ -49,6 +49,8 @@ let bitset_case nn ops =
     | ["none"; a] -> qry (r a) QNone
     | ["eq"; a; b] -> qry (r a) (QEq regs.(r b))
     | ["size"; a] -> print_string ("n " ^ string_of_n n ^ "\n")
+    | ["xset"; a; p] -> upd (r a) (BSet (n_of_string p, true))
+    | ["xtest"; a; p] -> qry (r a) (QTest (n_of_string p))
     | _ -> print_string "?\n") ops;
     Array.iter print_words regs
   with Stop -> ())
@@ -84,7 +86,7 @@ let outs k (next : unit -> string) =
   done
 
 let mt_case ops =
-  let g = ref (mt_seed (n_of_string "5489")) in
+  let g = ref (mt_seed mt_default_seed) in
   List.iter (fun l -> match words l with
     | ["seed"; s] -> g := mt_seed (n_of_string s); print_string "u\n"
     | ["gen"; k] -> outs (int_of_string k) (fun () -> let (g', r) = mt_next !g in g := g'; hex8 r)
